@@ -309,9 +309,87 @@ func (la *lockAnalysis) calleeSummary(cc *ssa.CallCommon) funcSummary {
 			return la.summaries[fn]
 		}
 	}
+	// a bound method of a mutex field handed around as a value (return r.mutex.RUnlock)
+	if s := boundLockSummary(cc.Value, 0); s != nil {
+		return s
+	}
 	// a function value with a single resolution (unlock := db.lockAll(); defer unlock())
 	if fs := la.p.funcValues(cc.Value, 0, false); len(fs) == 1 {
 		return la.summaries[fs[0]]
+	}
+	return nil
+}
+
+// boundLockSummary: v denotes the bound method value x.f.Lock / Unlock / RLock /
+// RUnlock of a mutex field f, directly or as the result of a repository helper
+// every return of which yields the same one (`func (r *T) rlock() func() {
+// r.mu.RLock(); return r.mu.RUnlock }`, `return t.cache, t.mu.RUnlock`).
+func boundLockSummary(v ssa.Value, depth int) funcSummary {
+	if depth > 3 {
+		return nil
+	}
+	fromCall := func(c *ssa.Call, idx int) funcSummary {
+		g := c.Call.StaticCallee()
+		if g == nil || g.Blocks == nil {
+			return nil
+		}
+		var out funcSummary
+		for _, b := range g.Blocks {
+			if isRecoverBlock(b) {
+				continue
+			}
+			ret, ok := b.Instrs[len(b.Instrs)-1].(*ssa.Return)
+			if !ok || idx >= len(ret.Results) {
+				continue
+			}
+			s := boundLockSummary(retValue(ret, idx), depth+1)
+			if s == nil || (out != nil && !sameSummary(out, s)) {
+				return nil
+			}
+			out = s
+		}
+		return out
+	}
+	switch x := v.(type) {
+	case *ssa.MakeClosure:
+		fn, ok := x.Fn.(*ssa.Function)
+		if !ok || len(x.Bindings) != 1 || !strings.HasSuffix(fn.Name(), "$bound") {
+			return nil
+		}
+		m, ok := fn.Object().(*types.Func)
+		if !ok || m.Pkg() == nil || m.Pkg().Path() != "sync" {
+			return nil
+		}
+		sig, _ := m.Type().(*types.Signature)
+		if sig == nil || sig.Recv() == nil {
+			return nil
+		}
+		nt, ok := deref(sig.Recv().Type()).(*types.Named)
+		if !ok || (nt.Obj().Name() != "Mutex" && nt.Obj().Name() != "RWMutex") {
+			return nil
+		}
+		f := fieldOfAddr(x.Bindings[0])
+		if f == nil {
+			return nil
+		}
+		switch m.Name() {
+		case "Lock":
+			return funcSummary{lockKey{f, 'W'}: 1}
+		case "Unlock":
+			return funcSummary{lockKey{f, 'W'}: -1}
+		case "RLock":
+			return funcSummary{lockKey{f, 'R'}: 1}
+		case "RUnlock":
+			return funcSummary{lockKey{f, 'R'}: -1}
+		}
+	case *ssa.Call:
+		return fromCall(x, 0)
+	case *ssa.Extract:
+		if c, ok := x.Tuple.(*ssa.Call); ok {
+			return fromCall(c, x.Index)
+		}
+	case *ssa.ChangeType:
+		return boundLockSummary(x.X, depth+1)
 	}
 	return nil
 }
@@ -1613,7 +1691,14 @@ func ruleL4(p *Program, r *Reporter) {
 	}
 	fns := []*ssa.Function{fn}
 	if body, via := serverTransactBody(p); via != nil {
-		fns = append(fns, body)
+		// the body lives in a helper: look at Transact, the helper, and the private
+		// functions and closures in between (a locking helper that runs the body)
+		fns = nil
+		for _, g := range sortedFuncs(p.PrivateRegion(fn)) {
+			if g == fn || g == body || g.Parent() != nil || len(la.summaries[g]) > 0 || holdsLockOp(g, txn) {
+				fns = append(fns, g)
+			}
+		}
 	}
 	targets := map[string]bool{"transact": false, "processMonitors": false, "Commit": false}
 	for _, fn := range fns {
@@ -1660,6 +1745,20 @@ func ruleL4(p *Program, r *Reporter) {
 			r.Anchor(id, "call to "+n+" in OvsdbServer.Transact")
 		}
 	}
+}
+
+// holdsLockOp: g contains a Lock/Unlock (plain or deferred) on mutex field f.
+func holdsLockOp(g *ssa.Function, f *types.Var) bool {
+	for _, b := range g.Blocks {
+		for _, ins := range b.Instrs {
+			if ci, ok := ins.(ssa.CallInstruction); ok {
+				if op, isLock, cls := lockOpOf(ci.Common()); isLock && cls && op.key.field == f {
+					return true
+				}
+			}
+		}
+	}
+	return false
 }
 
 // ---------------------------------------------------------------------------
